@@ -84,10 +84,12 @@ pub struct Gen;
 impl Gen {
     /// pick the next action from the current world state
     pub fn next(w: &mut World) -> Option<Action> {
-        let g = 0usize;
         if w.groups.is_empty() {
             return None;
         }
+        // worlds with several groups: each step works on one of them
+        let g = if w.groups.len() > 1 { w.prng.usize_below(w.groups.len()) } else { 0 };
+        w.ext.cur_g = g;
         let n = w.parties.len();
         let latest = w.groups[g].log.len() as u64;
         let live = w.live_members(g);
@@ -403,10 +405,21 @@ impl Gen {
     /// After the fault phase: deliver everything outstanding, reload crashed parties, then one more
     /// commit that every live member must accept (bounded liveness, DESIGN §2.8).
     pub fn heal(w: &World, stage: &mut u32) -> Option<Action> {
-        let g = 0usize;
         if w.groups.is_empty() {
             return None;
         }
+        for g in 0..w.groups.len() {
+            let mut st = (*stage >> (2 * g)) & 3;
+            let a = Gen::heal_group(w, g, &mut st);
+            *stage = (*stage & !(3 << (2 * g))) | (st << (2 * g));
+            if a.is_some() {
+                return a;
+            }
+        }
+        None
+    }
+
+    fn heal_group(w: &World, g: usize, stage: &mut u32) -> Option<Action> {
         let n = w.parties.len();
         let latest = w.groups[g].log.len() as u64;
         for p in 0..n {
@@ -443,7 +456,15 @@ impl Gen {
                 });
             }
         }
-        // everything is delivered: final commit round
+        // everything is delivered: every live member persists once more (late messages may have touched stored epochs)
+        if *stage == 0 {
+            for p in w.live_members(g) {
+                if !w.ext.final_written.contains(&(p, g)) && w.cfg.weight("write") > 0 {
+                    return Some(Action::Write { p, g });
+                }
+            }
+        }
+        // final commit round
         if *stage == 0 {
             *stage = 1;
             let live = w.live_members(g);
